@@ -494,8 +494,9 @@ def build_cases(backend, tier, rng):
     jfaults = ["raise", "nonnum", "unknown"]
     for label, spec in single_params(backend, tier, rng):
         common = {"params": [["p", spec]], "nilad": False}
-        cases.append(dict(common, form="gradvar", label=label, expr="f:>p", fname="f", good="+/x*x", probe_expr="fgood(p)", faults=gfaults))
-        cases.append(dict(common, form="nablasym", label=label, expr="p∇f", fname="f", good="+/x*x", probe_expr="fgood(p)", faults=gfaults))
+        loss = "+/+/x*x" if "mat" in label else "+/x*x"      # +/ of a matrix reduces along the first axis only
+        cases.append(dict(common, form="gradvar", label=label, expr="f:>p", fname="f", good=loss, probe_expr="fgood(p)", faults=gfaults))
+        cases.append(dict(common, form="nablasym", label=label, expr="p∇f", fname="f", good=loss, probe_expr="fgood(p)", faults=gfaults))
         cases.append(dict(common, form="jacvar", label=label, expr="p∂f", fname="f", good="x*x", probe_expr="fgood(p)", faults=jfaults))
     # a literal point on the left of ∇ (no variable involved at all)
     cases.append({"params": [["p", ["klong", "0"]]], "nilad": False, "form": "nablapoint", "label": "literal", "expr": "[1.0 2.0]∇f", "fname": "f",
